@@ -15,7 +15,8 @@ import vlib
 LEVEL = "model_checking"
 POS_QUICK = ["R_R", "UR_R", "URR_URR", "R_R_R", "URR_R_R", "URR_URR_URR"]
 POS_THOROUGH = ["UURRR_URUR"]
-SRC = ["sched_refcount.c", "vsched.c", "lib/upipe/ubuf_block_mem.c", "lib/upipe/ubuf_mem_common.c"]
+SRC = ["sched_refcount.c", "vsched.c", "lib/upipe/ubuf_block_mem.c", "lib/upipe/ubuf_mem_common.c", "lib/upipe/ubuf_pic_mem.c",
+       "lib/upipe/ubuf_pic_common.c", "lib/upipe/ubuf_pic.c", "lib/upipe/ubuf_sound_mem.c", "lib/upipe/ubuf_sound_common.c"]
 # (mode, pool, progs, pb quick, pb thorough)   pb -1 = unbounded
 DFS = [
     ("rc", 0, "R,R", -1, -1), ("rc", 0, "URR,R", -1, -1), ("rc", 0, "URR,URR", -1, -1),
@@ -59,24 +60,42 @@ AREAS = [(2, "F,A", 3, 4), (2, "R,R", 3, 4), (2, "FR,AR", 2, 3), (2, "AR,AR", 2,
          (2, "UR,FA", 2, 3), (1, "RA,RF", 2, 3), (2, "R,R,R", 2, 3)]
 
 
+# one area across two managers and two allocators (a block built on a picture's plane): who lets go last,
+# of the buffers and of the manager handles (R free my buffer, M release my manager handle, U dup)
+XAREAS = [(2, "RM,RM", 3, 4), (0, "RM,RM", 3, 4), (2, "MR,MR", 3, 4), (2, "URRM,RM", 2, 3), (1, "RM,URMR", 2, 3),
+          (2, "RM,RM,R,R", 2, 2)]
+
+
 def run_areas(ctx, binp):
     pool = []
     runs = 0
-    for pd, progs, pbq, pbt in AREAS:
+    for mode, pd, progs, pbq, pbt in [("areas",) + a for a in AREAS] + [("xareas",) + a for a in XAREAS]:
         pb = pbq if ctx.quick else pbt
-        hs, st = harness(ctx, binp, "areas", pd, progs, ["dfs", pb, 40000 if ctx.quick else 3000000])
+        hs, st = harness(ctx, binp, mode, pd, progs, ["dfs", pb, 40000 if ctx.quick else 3000000])
         runs += st.get("runs", 0)
-        ctx.extra.setdefault("areas_dfs", []).append({"pool": pd, "prog": progs, "preemption_bound": pb,
+        ctx.extra.setdefault("areas_dfs", []).append({"mode": mode, "pool": pd, "prog": progs, "preemption_bound": pb,
                                                       "schedules": st.get("runs"), "distinct_traces": st.get("unique"),
                                                       "complete_within_bound": st.get("complete")})
         pool += [(h, "dfs pb=%d" % pb) for h in hs]
-        hs, st = harness(ctx, binp, "areas", pd, progs, ["random", 1000 if ctx.quick else 50000, ctx.seed, 4])
+        hs, st = harness(ctx, binp, mode, pd, progs, ["random", 1000 if ctx.quick else 50000, ctx.seed, 4])
         runs += st.get("runs", 0)
         pool += [(h, "random") for h in hs]
     ctx.evaluations += runs
     ctx.extra["areas_schedules_run_on_real_code"] = runs
     if not any(e["e"] == "Refused" for h, _ in pool for e in h):
         raise vlib.ToolError("vacuity: no allocation was refused in mode areas")
+    # vacuity (xareas): the picture's allocator does go away, and in some schedules the block is the last holder
+    if not any(e["e"] == "AllocDead" for h, _ in pool for e in h):
+        raise vlib.ToolError("vacuity: the picture manager's allocator never ran its destructor in mode xareas")
+    last = set()
+    for h, _ in pool:
+        if h[0].get("mode") != "xareas":
+            continue
+        fr = [e for e in h if e["e"] == "Free" and e["h"] in (0, 1)]
+        if len(fr) == 2:
+            last.add(fr[-1]["h"])
+    if last != {0, 1}:
+        raise vlib.ToolError("vacuity: xareas schedules never made both the picture and the block the last holder (%s)" % sorted(last))
     # vacuity: a corrupted copy (a Return moved before the last Free of its area) must be rejected
     fake = None
     for h, _ in pool:
@@ -97,19 +116,20 @@ def run_areas(ctx, binp):
         h, source = pool[idx]
         r0 = h[0]
         ev = h[line - 1] if 0 < line <= len(h) else {}
-        key = "areas;pool=%d;prog=%s;%s" % (r0["pool"], r0["prog"], ev.get("e", "?"))
+        amode = r0.get("mode", "areas")
+        key = "%s;pool=%d;prog=%s;%s" % (amode, r0["pool"], r0["prog"], ev.get("e", "?"))
         if key in seen:
             continue
         seen.add(key)
-        hs, _ = harness(ctx, binp, "areas", r0["pool"], r0["prog"], ["replay", r0["sched"]])
+        hs, _ = harness(ctx, binp, amode, r0["pool"], r0["prog"], ["replay", r0["sched"]])
         rej2 = ctx.validate_histories_1pass("Areas_Trace", "Areas_Trace.cfg", hs, tag="areasre") if hs else []
         ctx.traces -= len(hs or [])
         if not rej2:
             raise vlib.ToolError("rejected trace did not reproduce: %s" % r0)
         ctx.violation(key, "trace of the real ubuf_block_mem over several areas (pool depth %d, programs %s + epilogue) rejected at "
-                      "event %d %s: an area is not returned to its allocator exactly once, after its last holder let go"
+                      "event %d %s: an area is not returned exactly once, after its last holder let go, to an allocator that still exists"
                       % (r0["pool"], r0["prog"], line, json.dumps(ev)),
-                      {"cmd": "sched_refcount areas %d %s replay %s" % (r0["pool"], r0["prog"], r0["sched"]), "trace": h, "source": source})
+                      {"cmd": "sched_refcount %s %d %s replay %s" % (amode, r0["pool"], r0["prog"], r0["sched"]), "trace": h, "source": source})
 
 
 def run(ctx):
